@@ -26,6 +26,8 @@ type Input struct {
 	// Unrepresentable is set for generated inputs whose construct the library's IR cannot hold:
 	// the required outcome is an error (no crash, no silently altered module).
 	Unrepresentable bool
+	// Simpler returns simpler variants of a generated input (one varied slot each), or nil.
+	Simpler func() []Input
 }
 
 // Testdata returns the .ll files shipped with the repository.
